@@ -72,10 +72,16 @@ def exc_sig(exc):
 
 
 def whose(info):
-    """razed | nested-insular | nested-named: what a framer object was when its tree was razed"""
+    """razed | nested-insular | nested-named: what a framer object was when its tree was razed
+    (nested-named: a named clone nested in the razed clone, or anything below such a named clone)"""
     if info.kind == "reared":
         return "razed"
-    return "nested-insular" if info.flags.get("insular") else "nested-named"
+    i = info
+    while i is not None and i.kind != "reared":
+        if i.kind == "static" and not i.flags.get("insular"):
+            return "nested-named"
+        i = i.host
+    return "nested-insular"
 
 
 def name_class(obs, msg):
@@ -120,9 +126,14 @@ def judge(ctx, case):
         ctx.fail("clone-program-does-not-build", "generated clone program is refused: %s" % (res.build_msgs[-1:],), w())
         return None
     if res.exc is not None:
-        msg = "".join(map(str, res.exc.args))[:200]
-        ctx.fail("run-raised/" + exc_sig(res.exc) + name_class(o1, msg), "running the clone program raised %s: %s" % (
-            type(res.exc).__name__, msg), w())
+        exc = res.exc          # the first exception: what the abort sweep raises afterwards only hides it
+        seen = 0
+        while exc.__context__ is not None and seen < 10:
+            exc = exc.__context__
+            seen += 1
+        msg = "".join(map(str, exc.args))[:200]
+        ctx.fail("run-raised/" + exc_sig(exc) + name_class(o1, msg), "running the clone program raised %s: %s" % (
+            type(exc).__name__, msg), w(later_exception=repr(res.exc)[:200] if exc is not res.exc else None))
         return None
     if o1.problems:
         ctx.inconclusive_case("Q1 harness problem: %s" % o1.problems[:2])
